@@ -452,16 +452,25 @@ def upvar_origin(prog, f, e, depth=0):
     if pf is None or pf.body is None:
         return None
     names = {r[1], "_ref__" + r[1], r[1][len("_ref__"):] if r[1].startswith("_ref__") else r[1]}
-    found = []
-    for b in sorted(pf.body.reachable()):
-        for st in pf.body.blocks[b]["stmts"]:
-            if st["k"] == "assign" and st["rv"]["k"] == "aggregate" and st["rv"].get("agg") == "closure" and st["rv"].get("closure") == f.id:
-                for fld, op in zip(st["rv"]["fields"], st["rv"]["ops"]):
-                    if fld in names:
-                        found.append(op)
-    if len(found) != 1:
+    # where the closure is built: in its parent — or, when the parent is a helper that was spliced into its callers, in those
+    hosts = [pf]
+    if getattr(prog, "is_absorbed", None) and prog.is_absorbed(pf):
+        hosts = [g for g in prog.fns.values() if g.body is not None and pf.id in (getattr(g, "inlined", None) or ())]
+    vals = []
+    for host in hosts:
+        htr = None
+        for b in sorted(host.body.reachable()):
+            for st in host.body.blocks[b]["stmts"]:
+                if st["k"] == "assign" and st["rv"]["k"] == "aggregate" and st["rv"].get("agg") == "closure" and st["rv"].get("closure") == f.id:
+                    for fld, op in zip(st["rv"]["fields"], st["rv"]["ops"]):
+                        if fld in names:
+                            htr = htr or Tracer(host.body)
+                            vals.append((host, htr.operand(op)))
+    if not vals:
         return None
-    pe = Tracer(pf.body).operand(found[0])
+    if len({canon(v) for _h, v in vals}) != 1:
+        return None              # the captured value differs between construction sites
+    host, pe = vals[0]
     if root(pe)[0] == "upvar":
-        return upvar_origin(prog, pf, pe, depth + 1)
+        return upvar_origin(prog, host, pe, depth + 1)
     return pe
